@@ -16,7 +16,8 @@ RULE = ('complete product: __conform__ behaviour (8) x provided (2) x hook '
 EXHAUSTIVE = True
 
 CONFORM = ['absent', 'attr_attributeerror', 'attr_valueerror', 'none',
-           'value', 'raise_value', 'raise_type', 'unbound_on_class']
+           'value', 'raise_value', 'raise_type', 'raise_attr',
+           'unbound_on_class']
 HOOK = ['none', 'value', 'raise']
 ALT = ['absent', 'value', 'none']
 ADAPT = ['std', 'own_none', 'own_value', 'own_raise', 'own_super',
@@ -168,7 +169,8 @@ def _grid_case(case, out):
             log.append(('conform_attr',))
             raise ValueError('conform attr')
         body['__conform__'] = property(_get)
-    elif conform in ('none', 'value', 'raise_value', 'raise_type'):
+    elif conform in ('none', 'value', 'raise_value', 'raise_type',
+                     'raise_attr'):
         def __conform__(self, i):
             log.append(('conform', id(i)))
             if conform == 'none':
@@ -177,6 +179,8 @@ def _grid_case(case, out):
                 return conform_value
             if conform == 'raise_value':
                 raise ValueError('inside conform')
+            if conform == 'raise_attr':
+                raise AttributeError('inside conform')
             raise TypeError('inside conform')
         body['__conform__'] = __conform__
     elif conform == 'unbound_on_class':
@@ -230,8 +234,12 @@ def _grid_case(case, out):
             if conform == 'attr_valueerror':
                 candidates += 1
                 return ('exc', ValueError, ('conform attr',))
-        elif conform in ('none', 'value', 'raise_value', 'raise_type'):
+        elif conform in ('none', 'value', 'raise_value', 'raise_type',
+                         'raise_attr'):
             exp_log.append(('conform', id(iface)))
+            if conform == 'raise_attr':
+                candidates += 1
+                return ('exc', AttributeError, ('inside conform',))
             if conform == 'value':
                 candidates += 1
                 return ('ret', conform_value)
@@ -270,7 +278,7 @@ def _grid_case(case, out):
     # count what *could* have produced an outcome
     possible = 0
     possible += conform in ('value', 'raise_value', 'raise_type',
-                            'attr_valueerror')
+                            'raise_attr', 'attr_valueerror')
     possible += bool(case['provided'])
     possible += sum(1 for h in case['hooks'] if h != 'none')
     possible += case['alt'] != 'absent'
